@@ -53,6 +53,7 @@ Fmts == { Fmt(<<"{", "m", "}">>, Rec.msg, NoParams), Fmt(<<"{", "m", "e", "s", "
           Fmt(<<"{", "X", "(", "k", ")", "}">>, MdcVal(<<"k">>, <<>>), NoParams),
           Fmt(<<"{", "m", "d", "c", "(", "z", "z", ")", "(", "q", ")", "}">>, MdcVal(<<"z", "z">>, <<"q">>), NoParams),
           Fmt(<<"{", "X", "(", "z", ")", "}">>, MdcVal(<<"z">>, <<>>), NoParams),
+          Fmt(<<"{", "X", "(", "z", ")", "(", "d", "f", ")", "}">>, MdcVal(<<"z">>, <<"d", "f">>), NoParams),   \* present but empty vs default
           Fmt(<<"{", "X", "(", "a", "\\", "(", "b", ")", "(", "x", "{", "{", "y", ")", ":", ">", "5", "}">>, MdcVal(<<"a", "(", "b">>, <<"x", "{", "y">>), P1) }
 Opens == { Open(<<"{", "(">>, "group"), Open(<<"{", "h", "(">>, "highlight"), Open(<<"{", "h", "i", "g", "h", "l", "i", "g", "h", "t", "(">>, "highlight"),
            Open(<<"{", "D", "(">>, "debug"), Open(<<"{", "R", "(">>, "release"), Open(<<"{", "d", "e", "b", "u", "g", "(">>, "debug") }
